@@ -317,3 +317,60 @@ func (ps *PathSummary) RetLin(tb *TB) []Lin {
 	}
 	return out
 }
+
+// Equalities implied by the branch conditions of the path: both x<y and y<x refuted
+// (trichotomy), or an eq(x,y) edge taken. Returned as substitutions atom(x) := atom(y).
+func (p *PathSummary) Equalities() map[string]string {
+	out := map[string]string{}
+	type pair struct{ a, b string }
+	refuted := map[pair]bool{}
+	for _, c := range p.Conds {
+		t := c.Cond
+		sign := c.True
+		for t.Op == "not" {
+			t = t.Args[0]
+			sign = !sign
+		}
+		if len(t.Args) != 2 {
+			continue
+		}
+		a, b := t.Args[0].String(), t.Args[1].String()
+		switch t.Op {
+		case "lt":
+			if !sign {
+				refuted[pair{a, b}] = true
+			}
+		case "le": // le(a,b) true  <=> not lt(b,a)
+			if sign {
+				refuted[pair{b, a}] = true
+			}
+		case "eq":
+			if sign {
+				out[a] = b
+			}
+		case "ne":
+			if !sign {
+				out[a] = b
+			}
+		}
+	}
+	for pr := range refuted {
+		if refuted[pair{pr.b, pr.a}] && pr.a < pr.b {
+			out[pr.a] = pr.b
+		}
+	}
+	return out
+}
+
+// subst replaces atoms according to eq.
+func (l Lin) subst(eq map[string]string) Lin {
+	n := Lin{}
+	for k, v := range l {
+		if r, ok := eq[k]; ok {
+			n[r] += v
+		} else {
+			n[k] += v
+		}
+	}
+	return n.norm()
+}
